@@ -11,16 +11,24 @@ Next == done' = TRUE
 Spec == Init /\ [][Next]_done
 
 NomVal == [c |-> 2, s |-> 3, sf |-> 1, ff |-> 2, ci |-> 5]
+Nominal == [f \in NumFields |-> 0]
 NumAssign == {n \in [NumFields -> {ABSENT, BAD, 0}] : Cardinality({f \in NumFields : n[f] # 0}) <= NumDev}
+\* one field given as a bare key (no value) or with the empty value
+NumAssignNV == {[Nominal EXCEPT ![f] = v] : f \in NumFields, v \in {NOVAL, EMPTY}}
+Extras == {"md-noval", "md-empty", "pv-noval", "pv-empty", "uk-noval", "uk-empty", "uk-value"}
+\* shapes of the TXT record: <<id spelling, numeric fields, extra oddity>>
+Shapes == {<<idc, n, "none">> : idc \in {"absent", "lower", "upper"}, n \in NumAssign}
+          \cup {<<idc, n, "none">> : idc \in {"lower", "upper"}, n \in NumAssignNV}
+          \cup {<<idc, Nominal, "none">> : idc \in {"noval", "empty"}}
+          \cup {<<idc, Nominal, x>> : idc \in {"lower", "upper"}, x \in Extras}
 AddrLists == UNION {[1..k -> AddrClasses] : k \in 0..MaxAddrs}
 \* every spelling variety where both families are usable (that is where "IPv4 first" decides), one otherwise
 Dual(al) == "v4" \in Range(al) /\ "v6" \in Range(al)
 ListAv == {p \in AddrLists \X Varieties : p[2] = 0 \/ Dual(p[1])}
-Mdns == {[kind |-> "mdns", idc |-> idc, kc |-> kc, addrs |-> p[1], av |-> p[2],
-          c |-> IF n["c"] = 0 THEN NomVal.c ELSE n["c"], s |-> IF n["s"] = 0 THEN NomVal.s ELSE n["s"],
-          sf |-> IF n["sf"] = 0 THEN NomVal.sf ELSE n["sf"], ff |-> IF n["ff"] = 0 THEN NomVal.ff ELSE n["ff"],
-          ci |-> IF n["ci"] = 0 THEN NomVal.ci ELSE n["ci"]] :
-            idc \in {"absent", "lower", "upper"}, kc \in {"lower", "upper"}, p \in ListAv, n \in NumAssign}
+Val(n, f) == IF n[f] = 0 THEN NomVal[f] ELSE n[f]
+Mdns == {[kind |-> "mdns", idc |-> sh[1], kc |-> kc, addrs |-> p[1], av |-> p[2], xk |-> sh[3],
+          c |-> Val(sh[2], "c"), s |-> Val(sh[2], "s"), sf |-> Val(sh[2], "sf"), ff |-> Val(sh[2], "ff"), ci |-> Val(sh[2], "ci")] :
+            kc \in {"lower", "upper"}, p \in ListAv, sh \in Shapes}
 Ble == {[kind |-> "ble", len |-> l, company |-> co, type |-> ty, sf |-> sf, ci |-> ci, s |-> s, c |-> c] :
           l \in 0..23, co \in {"apple", "other"}, ty \in {"hap", "enc", "other"}, sf \in {0, 1}, ci \in {5, 300},
           s \in {1, 65535}, c \in {1, 255}}
